@@ -51,7 +51,7 @@ fn bytes_of(j: &J) -> Vec<u8> {
 fn classify(msg: &str) -> &'static str {
     if msg.contains("Invalid algorithm") {
         "alg"
-    } else if msg.contains("Invalid key size") || msg.contains("mode requires a") {
+    } else if msg.contains("Invalid key size") || msg.contains("mode requires a") || msg.contains("halves of the key") {
         "key"
     } else if msg.contains("Invalid iv size") {
         "iv"
